@@ -357,6 +357,22 @@ package httpgen
 //@   ensures undecodable_is_an_error: !jsonDecodes(data, map[string]json.RawMessage) ==> err != nil
 //@   ensures decoded_once: err == nil ==> count("protojson.Unmarshal") == old(count("protojson.Unmarshal")) + 1
 
+// ---- empty_behavior codec of one message of the extraction schema (C04/C05): NULL writes null for a set-but-empty
+// message and reads null back as the empty message, OMIT leaves the key out, PRESERVE keeps protojson's {} ----
+//@ emitted func (x *Empties) MarshalJSON() (b []byte, err error)
+//@   modifies *
+//@   at-call protojson.Marshal requires base_is_the_message: x != nil && arg0 == x
+//@   at-call json.Marshal requires whole_map: isType(arg0, map[string]json.RawMessage) ==> asType(arg0, map[string]json.RawMessage) == spec.emptiesEnc(jsonDecoded(lastRetAs("protojson.Marshal", []byte), map[string]json.RawMessage), x.Nul, x.Omit)
+//@   ensures nil_message: x == nil ==> err == nil
+//@   ensures encoded_once: x != nil && err == nil ==> count("protojson.Marshal") == old(count("protojson.Marshal")) + 1
+
+//@ emitted func (x *Empties) UnmarshalJSON(data []byte) (err error)
+//@   modifies *
+//@   at-call json.Marshal requires rewritten_map: isType(arg0, map[string]json.RawMessage) ==> jsonDecodes(data, map[string]json.RawMessage) && asType(arg0, map[string]json.RawMessage) == spec.emptiesDec(jsonDecoded(data, map[string]json.RawMessage))
+//@   at-call protojson.Unmarshal requires into_the_message: arg1 == x && arg0 == lastRetAs("json.Marshal", []byte) && isType(lastArgIface("json.Marshal", "0"), map[string]json.RawMessage)
+//@   ensures undecodable_is_an_error: !jsonDecodes(data, map[string]json.RawMessage) ==> err != nil
+//@   ensures decoded_once: err == nil ==> count("protojson.Unmarshal") == old(count("protojson.Unmarshal")) + 1
+
 // ---- root-unwrap list codec of one message of the extraction schema (C05): the body is the JSON array of the
 // elements, each in its own proto3 JSON form (protojson, since the element type has no codec of its own) ----
 
